@@ -131,6 +131,11 @@ def texts_for(bg, tier, phase):
                         add(c, "just_below_%g" % T)
                 for c, _ in above[:nadj]:
                     add(c, "just_above_%g" % T)
+                # a few per cent below the threshold: the smallest fix needs more than the first tolerance of the schedule
+                # but is still barely perceptible
+                medium = [cr for cr in side if 0.935 * T <= cr[1] < 0.975 * T]
+                for c, _ in medium[:: max(1, len(medium) // nband)][:nband]:
+                    add(c, "medium_step_%g" % T)
             for target in (1.2, 2.0):
                 cand = [cr for cr in side if cr[1] >= target]
                 if cand:
